@@ -53,8 +53,8 @@ static void block_case(const Pattern &p, int bs) { hx::CaseOptions coo; coo.max_
       if (!x1 && !xb) { hx::require("smoothed aggregation on A (x) I_b: coarse size = b * scalar coarse size", Pb->ncols==P1->ncols*(size_t)bs); if (Pb->ncols==P1->ncols*(size_t)bs) { std::vector<scalar> got, ref; for (int i=0;i<p.n;++i) for (int r=0;r<bs;++r) { std::vector<scalar> g(Pb->ncols,scalar(0)), e(Pb->ncols,scalar(0)); for (ptrdiff_t k=Pb->ptr[i*bs+r];k<Pb->ptr[i*bs+r+1];++k) g[Pb->col[k]]=g[Pb->col[k]]+Pb->val[k]; for (ptrdiff_t k=P1->ptr[i];k<P1->ptr[i+1];++k) e[P1->col[k]*bs+r]=e[P1->col[k]*bs+r]+P1->val[k]; for (size_t c=0;c<g.size();++c) { got.push_back(g[c]); ref.push_back(e[c]); } }
         hx::prove_eq_vec("smoothed aggregation on A (x) I_b with block_size b = lifted prolongation P(A) (x) I_b", got, ref); } } } },coo); }
 
-static void sa_case(const Pattern &p, bool zero_rowsum, bool estimate_rho) { hx::CaseOptions coo; coo.max_paths=48; coo.max_depth=140; hx::run_case(std::string("smoothed_aggregation/")+(zero_rowsum?"zrs/":"gen/")+(estimate_rho?"rho/":"fixed/")+p.name, [&]() {
-    SCrs A=sym_matrix(p,zero_rowsum,true); if (zero_rowsum) for (auto &v : A.val) hx::assume(hx::ne(v,scalar(0))); auto Am=hx::to_amgcl(A); int n=p.n; typedef co::smoothed_aggregation<BE> SA; SA::params prm; prm.relax=1.0f; prm.estimate_spectral_radius=estimate_rho; if (estimate_rho) for (int i=0;i<n;++i) hx::assume(hx::ne(A.at(i,i),scalar(0)));
+static void sa_case(const Pattern &p, bool zero_rowsum, bool estimate_rho, float relax=1.0f) { hx::CaseOptions coo; coo.max_paths=48; coo.max_depth=140; hx::run_case(std::string("smoothed_aggregation/")+(zero_rowsum?"zrs/":"gen/")+(estimate_rho?"rho/":"fixed/")+(relax!=1.0f?"relax"+std::to_string((int)(relax*100))+"/":"")+p.name, [&]() {
+    SCrs A=sym_matrix(p,zero_rowsum,true); if (zero_rowsum) for (auto &v : A.val) hx::assume(hx::ne(v,scalar(0))); auto Am=hx::to_amgcl(A); int n=p.n; typedef co::smoothed_aggregation<BE> SA; SA::params prm; prm.relax=relax; prm.estimate_spectral_radius=estimate_rho; if (estimate_rho) for (int i=0;i<n;++i) hx::assume(hx::ne(A.at(i,i),scalar(0)));
     SA sa(prm); std::shared_ptr<M> P, R; try { std::tie(P,R)=sa.transfer_operators(*Am); } catch (const amgcl::error::empty_level&) { hx::count("empty level paths"); return; }
     // reference from the public aggregates (same decisions on this path)
     co::pointwise_aggregates ag(*Am,prm.aggr,0); co::nullspace_params ns; auto Pt=co::tentative_prolongation<M>(n,ag.count,ag.id,ns,1); Dense pt=dense_of(*Pt), pd=dense_of(*P); Dense a=A.dense();
@@ -65,6 +65,30 @@ static void sa_case(const Pattern &p, bool zero_rowsum, bool estimate_rho) { hx:
     hx::prove_eq_vec("smoothed aggregation: P = (I - omega D_F^-1 A_F) P_tent", got, ref);
     if (!rows.empty()) hx::prove_all("smoothed aggregation: interpolation rows sum to one on zero-row-sum rows with a strong neighbour", rows);
     Dense rd=dense_of(*R); std::vector<scalar> l, r; for (size_t i=0;i<rd.size();++i) for (size_t j=0;j<rd[i].size();++j) { l.push_back(rd[i][j]); r.push_back(pd[j][i]); } hx::prove_eq_vec("R = P^T", l, r); },coo); }
+
+// aggregates smaller than min_aggregate unknowns are removed (their nodes become unaggregated, the numbering stays contiguous): with near-null-space vectors the
+// local QR of every surviving aggregate needs at least nullspace.cols rows.  Structural check on all strength graphs of the pattern, block sizes 1..3.
+static void min_aggregate_case(const Pattern &p, int bs, unsigned min_aggr) { hx::CaseOptions coo; coo.max_paths=64; coo.max_depth=140; hx::run_case("min_aggregate/b"+std::to_string(bs)+"/m"+std::to_string(min_aggr)+"/"+p.name, [&]() {
+    SCrs A=sym_matrix(p,false,true); for (int i=0;i<p.n;++i) hx::assume(hx::lt(scalar(0),A.at(i,i)));
+    SCrs K; K.n=p.n*bs; K.m=p.m*bs; K.ptr.push_back(0); for (int i=0;i<p.n;++i) for (int r=0;r<bs;++r) { for (ptrdiff_t k=p.ptr[i];k<p.ptr[i+1];++k) { K.col.push_back(p.col[k]*bs+r); K.val.push_back(A.val[k]); } K.ptr.push_back(K.col.size()); }
+    auto Km=hx::to_amgcl(K); co::pointwise_aggregates::params pb; pb.block_size=bs; std::shared_ptr<co::pointwise_aggregates> ag; try { ag=std::make_shared<co::pointwise_aggregates>(*Km,pb,min_aggr); } catch (const amgcl::error::empty_level&) { hx::count("empty level paths"); return; }
+    std::vector<int> cnt(ag->count,0); bool range=true; for (int i=0;i<K.n;++i) { ptrdiff_t a=ag->id[i]; if (a>=0) { if ((size_t)a>=ag->count) range=false; else cnt[a]++; } } hx::require("aggregate ids are in [0,count) or negative", range); if (!range) return;
+    bool big=true, nonempty=true; std::string w; for (size_t a=0;a<ag->count;++a) { if (cnt[a]==0) nonempty=false; /* scalar aggregate a belongs to pointwise aggregate a/bs: that one has cnt unknowns per component */ int unknowns=0; for (int r=0;r<bs;++r) unknowns+=cnt[(a/bs)*bs+r]; if (unknowns<(int)min_aggr) { big=false; if (w.empty()) w="aggregate "+std::to_string(a/bs)+" has "+std::to_string(unknowns)+" unknowns, min_aggregate="+std::to_string(min_aggr); } }
+    hx::require("no empty aggregate after the removal of small aggregates (contiguous numbering)", nonempty); hx::require("every surviving aggregate has at least min_aggregate unknowns (rows for the local QR of the near-null-space vectors)", big, w); },coo); }
+
+// smoothed_aggr_emin against its definition, concrete matrices (uniform Laplacians: exact cancellations in A D^-1 A P do occur), exact rationals:
+//   A_f = strong part of A with the weak entries lumped into the diagonal D;  AP = A_f P_t;  ADAP = A_f D^-1 AP;
+//   omega_c = <AP_c, ADAP_c> / <ADAP_c, ADAP_c> (column-wise);  P = P_t - D^-1 AP Omega;  R = P_t^T - Omega P_t^T A_f D^-1
+static void emin_case(const Pattern &p, bool uniform, hx::Rng &rng) { hx::run_case(std::string("emin/")+(uniform?"uniform/":"mmatrix/")+p.name, [&]() { hx::Rng r2(rng.s); SCrs A=hx::mmatrix(p,r2); int n=p.n;
+    if (uniform) for (int i=0;i<n;++i) for (ptrdiff_t k=p.ptr[i];k<p.ptr[i+1];++k) A.val[k] = p.col[k]==i ? scalar(4) : scalar(-1);
+    auto Am=hx::to_amgcl(A); typedef co::smoothed_aggr_emin<BE> EM; EM::params prm; EM em(prm); std::shared_ptr<M> P, R; try { std::tie(P,R)=em.transfer_operators(*Am); } catch (const amgcl::error::empty_level&) { hx::count("empty level paths"); return; }
+    co::pointwise_aggregates ag(*Am,prm.aggr,0); co::nullspace_params ns; auto Pt=co::tentative_prolongation<M>(n,ag.count,ag.id,ns,1); Dense pt=dense_of(*Pt); size_t nc=ag.count;
+    Dense Af(n,std::vector<scalar>(n,scalar(0))); std::vector<scalar> D(n,scalar(0)); for (int i=0;i<n;++i) for (ptrdiff_t k=p.ptr[i];k<p.ptr[i+1];++k) { int c=p.col[k]; if (c==i || !ag.strong_connection[k]) D[i]+=A.val[k]; else Af[i][c]=A.val[k]; } for (int i=0;i<n;++i) Af[i][i]=D[i];
+    Dense AP(n,std::vector<scalar>(nc,scalar(0))), ADAP(n,std::vector<scalar>(nc,scalar(0))); for (int i=0;i<n;++i) for (int k=0;k<n;++k) if (!hx::is_zero_value(Af[i][k])) for (size_t c=0;c<nc;++c) AP[i][c]+=Af[i][k]*pt[k][c]; for (int i=0;i<n;++i) for (int k=0;k<n;++k) if (!hx::is_zero_value(Af[i][k])) for (size_t c=0;c<nc;++c) ADAP[i][c]+=Af[i][k]*AP[k][c]/D[k];
+    std::vector<scalar> om(nc); for (size_t c=0;c<nc;++c) { scalar a=0, b=0; for (int i=0;i<n;++i) { a+=AP[i][c]*ADAP[i][c]; b+=ADAP[i][c]*ADAP[i][c]; } om[c]=a/b; }
+    Dense pd=dense_of(*P), rd=dense_of(*R); std::vector<scalar> gp, rp, gr, rr; for (int i=0;i<n;++i) for (size_t c=0;c<nc;++c) { gp.push_back(pd[i][c]); rp.push_back(pt[i][c]-AP[i][c]*om[c]/D[i]); }
+    for (size_t c=0;c<nc;++c) for (int j=0;j<n;++j) { scalar t=0; for (int k=0;k<n;++k) t+=pt[k][c]*Af[k][j]; gr.push_back(rd[c][j]); rr.push_back(pt[j][c]-om[c]*t/D[j]); }
+    hx::prove_eq_vec("smoothed_aggr_emin: P = P_tent - D^-1 A_f P_tent Omega with the column-wise energy-minimising omega", gp, rp); hx::prove_eq_vec("smoothed_aggr_emin: R = P_tent^T - Omega P_tent^T A_f D^-1", gr, rr); }); }
 
 static void rs_case(const Pattern &p, bool trunc, bool wide_trunc=false) { hx::CaseOptions coo; coo.max_paths=64; coo.max_depth=160; hx::run_case(std::string("ruge_stuben/")+(trunc?(wide_trunc?"trunc-wide/":"trunc/"):"notrunc/")+p.name, [&]() {
     SCrs A=sym_matrix(p,true,true); for (auto &v : A.val) hx::assume(hx::le(scalar(1e-12),v*v));   // entries are not at the library's absolute zero threshold (2 eps)
@@ -91,6 +115,8 @@ int main(int argc, char **argv) {
     for (auto &p : sp) { aggregates_case(p,true,0.08f); if (p.n<=3 || T) aggregates_case(p,true,0.5f); }
     for (int k=0;k<(T?40:10);++k) aggregates_case(hx::random_pattern(3+rng.below(2),3,rng,2,true).n==3 ? hx::mask_pattern(3,3,rng.next()%512,true) : hx::mask_pattern(4,4,rng.next()&0xffff,true),false,0.08f);
     for (auto &p : sp) if (p.n<=3 || T || rng.below(3)==0) { block_case(p,2); if (p.n<=3) block_case(p,3); }
-    for (auto &p : sp) if (hx::connected(p)) { sa_case(p,true,false); if (p.n<=3 || T) { sa_case(p,false,false); sa_case(p,true,true); } rs_case(p,true); if (p.n<=3 || T) rs_case(p,false); if (p.n>=3 && (p.n<=3 || T || rng.below(2)==0)) rs_case(p,true,true); }
+    for (auto &p : std::vector<Pattern>{hx::grid_pattern(3,2),hx::grid_pattern(3,3),hx::grid_pattern(6,3),hx::grid_pattern(8,2),hx::band_pattern(7,1)}) { emin_case(p,true,rng); if (p.n<=9 || T) emin_case(p,false,rng); }
+    for (auto &p : sp) if (p.n>=3 && (p.n<=3 || T || rng.below(3)==0)) { min_aggregate_case(p,1,2); min_aggregate_case(p,2,3); if (T || p.n<=3) { min_aggregate_case(p,2,5); min_aggregate_case(p,3,2); min_aggregate_case(p,1,3); } }
+    for (auto &p : sp) if (hx::connected(p)) { sa_case(p,true,false); if (p.n<=3 || T) { sa_case(p,false,false); sa_case(p,true,true); sa_case(p,true,true,0.5f); sa_case(p,false,true,0.5f); sa_case(p,false,false,1.25f); } rs_case(p,true); if (p.n<=3 || T) rs_case(p,false); if (p.n>=3 && (p.n<=3 || T || rng.below(2)==0)) rs_case(p,true,true); }
     return hx::finish();
 }
